@@ -298,6 +298,8 @@ fn decimal_literals() -> BoxedStrategy<Case> {
     let d = prop_oneof![
         3 => crate::gen_::finite_f64().prop_map(|x| x.abs()),
         2 => (1u64..(1 << 53), -60i32..40).prop_map(|(m, e)| m as f64 * 10f64.powi(e)),
+        // whole numbers beyond 2^54, whose midpoints are whole numbers as well
+        1 => (1u64..(1 << 53), 2u32..300).prop_map(|(m, e)| m as f64 * 2f64.powi(e as i32)),
         1 => (0u32..2000).prop_map(|k| k as f64 / 8.0),
     ];
     (d, any::<[u16; 6]>(), 0u8..4)
@@ -339,21 +341,18 @@ fn decimal_literals() -> BoxedStrategy<Case> {
         .boxed()
 }
 
-/// digits of the midpoint as `D.DDDDe<E>`; nudge = +1 appends ...0001, -1 turns the final 5 into 49999
+/// digits of the midpoint as `D.DDDDe<E>`; nudge = +1 / -1 moves it by 10^-25 of its leading
+/// digit's place first (far less than half an ulp, whatever trailing zeros the midpoint has)
 fn mid_text(mid: &Dec, nudge: i32) -> String {
-    let mut ds = mid.digit_string();
-    let exp = mid.exp + ds.len() as i64 - 1;
-    match nudge {
-        1 => ds.push_str("0001"),
-        -1 => {
-            // a midpoint of two doubles always ends in 5
-            let last = ds.pop().unwrap();
-            let lower = (last as u8 - 1) as char;
-            ds.push(lower);
-            ds.push_str("9999");
-        }
-        _ => {}
-    }
+    let lead = mid.exp + mid.digit_string().len() as i64 - 1;
+    let tiny = Dec::pow10(lead - 25);
+    let m = match nudge {
+        1 => mid.add(&tiny),
+        -1 => mid.sub(&tiny),
+        _ => mid.clone(),
+    };
+    let ds = m.digit_string();
+    let exp = m.exp + ds.len() as i64 - 1;
     if ds.len() == 1 { format!("{}e{}", ds, exp) } else { format!("{}.{}e{}", &ds[..1], &ds[1..], exp) }
 }
 
@@ -421,6 +420,16 @@ pub fn run(ctx: &mut Ctx) {
         fixed.into_iter().map(|(t, v)| Case::Literal { text: t.to_string(), expect: F(v), features: 2 }),
         false,
     );
+    // midpoints between large doubles are whole numbers, often ending in zeros
+    let mut mids = Vec::new();
+    for d in [1759343248289999872.0f64, 18014398509481984.0, 1e18, 1e22, 1.2e24, 9.5e29, 2f64.powi(80), 3e200] {
+        let up = next_up(d);
+        let mid = Dec::from_f64(d).add(&Dec::from_f64(up)).half();
+        mids.push(Case::Literal { text: mid_text(&mid, 1), expect: F(up), features: 2 });
+        mids.push(Case::Literal { text: mid_text(&mid, -1), expect: F(d), features: 2 });
+        mids.push(Case::Literal { text: mid_text(&mid, 0), expect: F(if d.to_bits() & 1 == 0 { d } else { up }), features: 2 });
+    }
+    ctx.run_enum(&Numbers, mids.into_iter(), false);
     ctx.run_random(&Numbers, path_doubles().prop_map(Case::Paths), ctx.tier.pick(60_000, 2_000_000));
     ctx.run_random(&Numbers, decimal_literals(), ctx.tier.pick(40_000, 1_200_000));
     ctx.run_random(&Numbers, radix_literals(), ctx.tier.pick(20_000, 600_000));
